@@ -213,8 +213,7 @@ class TaskScenario(ScenarioData):
         for task in self.project.tasks:
             if not task.leaf():
                 continue
-            deps = task.get("depends", self.scenarioIdx) or []
-            for dep in deps:
+            for dep in self._dependenciesOf(task):
                 if isinstance(dep, dict):
                     pred = dep.get("task")
                 elif hasattr(dep, "task"):
@@ -227,6 +226,14 @@ class TaskScenario(ScenarioData):
                     break
 
         return successors
+
+    def _dependenciesOf(self, task: Any) -> list[Any]:
+        """Own dependencies of a task plus those of its enclosing containers."""
+        task_scenario = task.data[self.scenarioIdx] if getattr(task, "data", None) else None
+        if task_scenario is not None and hasattr(task_scenario, "getAllDependencies"):
+            result: list[Any] = task_scenario.getAllDependencies()
+            return result
+        return task.get("depends", self.scenarioIdx) or []
 
     def _getSuccessorsWithMaxGap(self) -> list[tuple[Any, Any, Any]]:
         """
@@ -576,15 +583,18 @@ class TaskScenario(ScenarioData):
                         if succ_start:
                             # Honour the gap requested on the successor's dependency:
                             # this task must end that much before the successor starts.
+                            # Several dependencies may lead here (own and inherited ones,
+                            # on this task or on an enclosing container): the largest gap wins.
                             targets = [self.property, *self.property.ancestors()]
-                            for dep in successor.get("depends", self.scenarioIdx) or []:
+                            gap_hours = 0.0
+                            for dep in self._dependenciesOf(successor):
                                 if isinstance(dep, dict) and any(dep.get("task") is t for t in targets):
                                     if dep.get("gapduration") and not dep.get("onstart"):
-                                        from datetime import timedelta
+                                        gap_hours = max(gap_hours, self._parse_duration(dep.get("gapduration")))
+                            if gap_hours:
+                                from datetime import timedelta
 
-                                        gap_hours = self._parse_duration(dep.get("gapduration"))
-                                        succ_start = succ_start - timedelta(hours=gap_hours)
-                                    break
+                                succ_start = succ_start - timedelta(hours=gap_hours)
                         if succ_start and succ_start < latest_end:
                             latest_end = succ_start
 
